@@ -43,7 +43,8 @@ def r_no_hash_iteration(r, prog):
             if not on_hash:
                 continue
             nm = c.name()
-            if nm in ITERATING and not (nm == 'into_iter' and 'Vec' in ty) and not (nm == 'fmt' and 'derive' in str(c.span.macro or '')):
+            outer = ty.lstrip('&').replace('mut ', '').strip()
+            if nm in ITERATING and not (nm == 'into_iter' and outer.startswith('alloc::vec::Vec')) and not (nm == 'fmt' and 'derive' in str(c.span.macro or '')):
                 r.finding('hash-container-iterated:%s:%s' % (f.path, nm), c.span, '%s calls %s on a hash container (%s): iteration order is random per process and could reach diagnostics or the generator request' % (f.path, nm, ty[:70]))
             elif nm in ('insert', 'get', 'contains', 'contains_key', 'remove', 'clone', 'new', 'from_iter', 'from', 'len', 'is_empty', 'with_capacity', 'default', 'get_mut', 'entry'):
                 seen_member += 1
@@ -161,6 +162,78 @@ def r_no_first_seen_gating(r, prog):
     r.floor(2)
 
 
+
+def r_symmetric_redefinition_table(r, prog):
+    """Acceptance must not depend on which of two colliding names is met first: whatever is recorded in the table of seen
+    definitions is recorded by the same step that looks it up and reports (check_if_redefined); nothing is recorded on the side."""
+    fs = [f for f in prog.fns.values() if 'validators::identifiers::RedefinitionChecker' in f.path and f.kind != 'closure']
+    cir = [f for f in fs if f.path.endswith('::check_if_redefined')]
+    if not fs or not cir:
+        raise AnchorMissing('RedefinitionChecker::check_if_redefined')
+    n = 0
+    for f in fs:
+        for c in f.calls():
+            if f.blocks[c.bb].get('cleanup'):
+                continue
+            if re.search(r'hash::map::HashMap|hash::map::Entry|hash::map::(Vacant|Occupied)Entry', c.resolved or c.callee or '') and c.name() not in ('new', 'default', 'with_capacity'):
+                n += 1
+                if f in cir:
+                    continue
+                r.finding('seen-table-written-without-check:%s:%s' % (f.path.rsplit('::', 1)[-1], c.name()), c.span,
+                          '%s touches the table of seen definitions with %s outside check_if_redefined: an entry recorded without being checked itself is only caught when it comes first, so acceptance depends on file order' % (f.path, c.name()))
+    f = cir[0]
+    ins = [c for c in f.calls() if c.name() in ('insert', 'entry') and not f.blocks[c.bb].get('cleanup')]
+    pushes = [c for c in f.calls() if c.name() in ('push_into', 'report_redefinition_error') and not f.blocks[c.bb].get('cleanup')]
+    gets = branches_on_call(f, lambda x: x.name() in ('get', 'insert', 'contains_key') and 'HashMap' in (x.resolved or ''))
+    sw = [sw_ for sw_ in enum_switches(f, 'core::option::Option') if re.search(r'(get|insert)\(', vexpr(f, {'cp': sw_['place']}))]
+    if ins and pushes and (gets or sw):
+        r.ok('check_if_redefined looks the name up, reports on a hit and records on a miss, in one step')
+    else:
+        r.finding('redefinition-step-shape', f.span, 'check_if_redefined does not look up, report and record in one step (insert sites %d, reports %d)' % (len(ins), len(pushes)))
+    if n < 2:
+        raise AnchorMissing('operations on the seen-definitions table (found %d)' % n)
+    r.floor(1)
+
+
+def r_emitted_is_updated(r, prog):
+    """What is emitted and counted is exactly what into_updated returns: nothing is filtered, sorted or dropped in between
+    (a filter keyed on source/reference would make the warnings depend on how the files were passed)."""
+    m = prog.fn('slicec_bin::main')
+    upd = [c for c in m.calls() if c.name() == 'into_updated' and not m.blocks[c.bb].get('cleanup')]
+    if len(upd) != 1 or upd[0].dest is None:
+        raise AnchorMissing('the into_updated call of main')
+    dl = upd[0].dest['l']
+    bad = []
+    for c in m.calls():
+        if m.blocks[c.bb].get('cleanup') or c is upd[0]:
+            continue
+        for i, a in enumerate(c.args):
+            pl = a.get('mv') or a.get('cp') if isinstance(a, dict) else None
+            src = vexpr(m, a)
+            if src.startswith('into_updated(') or (pl is not None and pl.get('l') == dl):
+                if c.name() in ('get_totals', 'emit_diagnostics', 'emit_totals', 'deref', 'as_slice', 'len', 'is_empty', 'iter', 'drop', 'drop_in_place'):
+                    continue
+                bad.append((c.name(), c.span))
+    # mutable borrows of the updated vector (retain, sort, dedup, truncate, ...)
+    for bb, j, lhs, rv, s_ in m.assigns():
+        if rv['k'] == 'ref' and rv.get('mut') and rv['p'].get('l') == dl and not m.blocks[bb].get('cleanup'):
+            users = [c for c in m.calls() if any((isinstance(a, dict) and (a.get('mv') or a.get('cp') or {}).get('l') == lhs['l']) for a in c.args)]
+            for c in users:
+                if c.name() not in ('get_totals', 'emit_diagnostics', 'deref', 'deref_mut', 'as_slice'):
+                    bad.append((c.name(), c.span))
+    if bad:
+        for nm, sp in bad:
+            r.finding('updated-diagnostics-altered:%s' % nm, sp, 'main applies %s to the diagnostics between into_updated and their emission / count: what is shown no longer is what the compiler found' % nm)
+    else:
+        r.ok('the vector returned by into_updated is emitted and counted as it is')
+    em = [c for c in m.calls() if c.name() == 'emit_diagnostics' and not m.blocks[c.bb].get('cleanup')]
+    gt = [c for c in m.calls() if c.name() == 'get_totals' and not m.blocks[c.bb].get('cleanup')]
+    if em and gt and 'into_updated(' in vexpr(m, em[0].args[1], depth=6) and 'into_updated(' in vexpr(m, gt[0].args[0], depth=6):
+        r.ok('emit_diagnostics and get_totals receive that vector')
+    else:
+        r.finding('emitted-not-updated', m.span, 'emit_diagnostics / get_totals are not given the result of into_updated (%s / %s)' % ([vexpr(m, c.args[1], depth=6)[:50] for c in em], [vexpr(m, c.args[0], depth=6)[:50] for c in gt]))
+    r.floor(2)
+
 def run(ctx):
     prog = ctx.prog
     ctx.run_rule('C15.1a', 'T1', 'no hash container is iterated or debug-printed', r_no_hash_iteration, prog)
@@ -170,3 +243,5 @@ def run(ctx):
     ctx.run_rule('C15.3b', 'T1', 'parser / preprocessor state is per file', perfile.r_parsers_per_file, prog)
     ctx.run_rule('C15.4a', 'T8', 'cycle search skips candidates only on its two guards (no memo across roots)', c05.r_recursion_guard, prog)
     ctx.run_rule('C15.4b', 'T2', 'no report is gated by first-seen state that outlives the element', r_no_first_seen_gating, prog)
+    ctx.run_rule('C15.2b', 'T1', 'the table of seen definitions is written only by the step that also checks and reports', r_symmetric_redefinition_table, prog)
+    ctx.run_rule('C15.5', 'T10', 'the diagnostics emitted and counted are exactly what into_updated returned', r_emitted_is_updated, prog)
